@@ -19,6 +19,8 @@ import (
 	"github.com/oasisprotocol/oasis-core/go/common/quantity"
 	"github.com/oasisprotocol/oasis-core/go/consensus/api/transaction"
 	registry "github.com/oasisprotocol/oasis-core/go/registry/api"
+	roothash "github.com/oasisprotocol/oasis-core/go/roothash/api"
+	"github.com/oasisprotocol/oasis-core/go/roothash/api/commitment"
 	scheduler "github.com/oasisprotocol/oasis-core/go/scheduler/api"
 	staking "github.com/oasisprotocol/oasis-core/go/staking/api"
 )
@@ -32,12 +34,15 @@ type cnTxSpec struct {
 	Nonce    uint64 `json:"nonce"`
 	Fee      int64  `json:"fee"`
 	Gas      uint64 `json:"gas"`
-	Rotate   string `json:"rotate,omitempty"` // regnode: none | fresh:<role> | move:<from>><to> | swap:<a>:<b>
-	Node     string `json:"node,omitempty"`   // regnode: the node being registered (the signer may be someone else)
+	Rotate   string `json:"rotate,omitempty"`   // regnode: none | fresh:<role> | move:<from>><to> | swap:<a>:<b>
+	Node     string `json:"node,omitempty"`     // regnode: the node being registered (the signer may be someone else)
 	Runtimes string `json:"runtimes,omitempty"` // regnode: "" (validator only) | "R0" | "R0,R1": compute role for these runtimes
-	Gov      string `json:"gov,omitempty"`     // regruntime: entity | runtime
-	Shape    string `json:"shape,omitempty"`   // regruntime: "g<workers>b<backups>m<max nodes per entity, 0 = unset>p<min pool: workers+this>v<validator-set constraint 0/1>"
-	Validity string `json:"validity"` // ok | badnonce | futurenonce | lowgas | badsig | wrongchain | wrongdomain | malformed | replay
+	Gov      string `json:"gov,omitempty"`      // regruntime: entity | runtime
+	Shape    string `json:"shape,omitempty"`    // regruntime: "g<workers>b<backups>m<max nodes per entity, 0 = unset>p<min pool: workers+this>v<validator-set constraint 0/1>s<allowed stragglers>"
+	Sched    string `json:"sched,omitempty"`    // rhcommit: the scheduler whose proposal the commitment is for
+	Vote     string `json:"vote,omitempty"`     // rhcommit: A | B (result labels) | F (failure indicating)
+	VRoot    string `json:"vroot,omitempty"`    // rhcommit: the state root the vote carries (empty for F)
+	Validity string `json:"validity"`           // ok | badnonce | futurenonce | lowgas | badsig | wrongchain | wrongdomain | malformed | replay
 }
 
 type cnAccount struct {
@@ -116,7 +121,7 @@ func (n *cnNet) buildTx(spec *cnTxSpec, rng *rand.Rand) ([]byte, error) {
 		return nil, fmt.Errorf("unknown signer %s", spec.Signer)
 	}
 	var to staking.Address
-	if spec.To != "" && spec.Kind != "unfreeze" && spec.Kind != "regruntime" {
+	if spec.To != "" && spec.Kind != "unfreeze" && spec.Kind != "regruntime" && spec.Kind != "rhcommit" {
 		switch spec.To {
 		case "POOL":
 			to = staking.CommonPoolAddress
@@ -190,12 +195,12 @@ func (n *cnNet) buildTx(spec *cnTxSpec, rng *rand.Rand) ([]byte, error) {
 		var ei int
 		fmt.Sscanf(spec.Signer, "E%d", &ei)
 		rt := &registry.Runtime{
-			Versioned: cbor.NewVersioned(registry.LatestRuntimeDescriptorVersion),
-			ID:        runtimeID(spec.To),
-			EntityID:  n.vals[ei].ent.ID,
-			Kind:      registry.KindCompute,
-			Executor:  registry.ExecutorParameters{GroupSize: 1, GroupBackupSize: 0, AllowedStragglers: 0, RoundTimeout: 10, MaxMessages: 32},
-			TxnScheduler: registry.TxnSchedulerParameters{BatchFlushTimeout: time.Second, MaxBatchSize: 1, MaxBatchSizeBytes: 1024, ProposerTimeout: 5 * time.Second},
+			Versioned:       cbor.NewVersioned(registry.LatestRuntimeDescriptorVersion),
+			ID:              runtimeID(spec.To),
+			EntityID:        n.vals[ei].ent.ID,
+			Kind:            registry.KindCompute,
+			Executor:        registry.ExecutorParameters{GroupSize: 1, GroupBackupSize: 0, AllowedStragglers: 0, RoundTimeout: 3, MaxMessages: 32},
+			TxnScheduler:    registry.TxnSchedulerParameters{BatchFlushTimeout: time.Second, MaxBatchSize: 1, MaxBatchSizeBytes: 1024, ProposerTimeout: 5 * time.Second},
 			AdmissionPolicy: registry.RuntimeAdmissionPolicy{AnyNode: &registry.AnyNodeRuntimeAdmissionPolicy{}},
 			Constraints: map[scheduler.CommitteeKind]map[scheduler.Role]registry.SchedulingConstraints{
 				scheduler.KindComputeExecutor: {
@@ -210,9 +215,12 @@ func (n *cnNet) buildTx(spec *cnTxSpec, rng *rand.Rand) ([]byte, error) {
 			rt.GovernanceModel = registry.GovernanceRuntime
 		}
 		if spec.Shape != "" {
-			var g, b, m, p, vs int
-			if _, err := fmt.Sscanf(spec.Shape, "g%db%dm%dp%dv%d", &g, &b, &m, &p, &vs); err == nil {
+			var g, b, m, p, vs, st int
+			if _, err := fmt.Sscanf(spec.Shape, "g%db%dm%dp%dv%ds%d", &g, &b, &m, &p, &vs, &st); err == nil {
 				rt.Executor.GroupSize, rt.Executor.GroupBackupSize = uint16(g), uint16(b)
+				if st > 0 && st <= g && (b == 0 || st <= b) {
+					rt.Executor.AllowedStragglers = uint16(st)
+				}
 				cons := func(size int) registry.SchedulingConstraints {
 					c := registry.SchedulingConstraints{MinPoolSize: &registry.MinPoolSizeConstraint{Limit: uint16(size + p)}}
 					if m > 0 {
@@ -234,6 +242,13 @@ func (n *cnNet) buildTx(spec *cnTxSpec, rng *rand.Rand) ([]byte, error) {
 		}
 		rt.Genesis.StateRoot.Empty()
 		tx = registry.NewRegisterRuntimeTx(spec.Nonce, fee, rt)
+	case "rhcommit":
+		// spec.To names the runtime, spec.Node the committing node, spec.Amount the round
+		ec, err := n.rhCommitment(spec.To, spec.Amount, n.rhPrev[spec.To], spec.Node, spec.Sched, spec.Vote)
+		if err != nil {
+			return nil, err
+		}
+		tx = roothash.NewExecutorCommitTx(spec.Nonce, fee, runtimeID(spec.To), []commitment.ExecutorCommitment{*ec})
 	case "deregentity":
 		tx = registry.NewDeregisterEntityTx(spec.Nonce, fee)
 	case "unfreeze":
